@@ -160,7 +160,7 @@ pub fn specs() -> Vec<PropSpec> {
         },
         PropSpec {
             id: "C08",
-            parts: &[("c08", 48, 640)],
+            parts: &[("c08", 96, 960)],
             level: "fault_enumeration",
             tags: &["C08"],
             rule: "Each evaluation is one (operation, reached state) pair \
@@ -174,7 +174,10 @@ pub fn specs() -> Vec<PropSpec> {
                 restored and the unit re-run twice: with a process crash \
                 before mutation k (unwind, all memory dropped, restart \
                 from the directory) and with mutation k failing with an \
-                I/O error. After each cut: every entity loads (also in a \
+                I/O error; at half of the cut points a third time with \
+                the crash followed by a second crash before the j-th \
+                mutation (j seeded, 1-40) of the start-up path or of the \
+                background work that follows it. After each cut: every entity loads (also in a \
                 fresh store), version = audit records + 1, key state / \
                 object sets / reported ROA objects agree, the published \
                 tree has no invalid, missing or unlisted object; after the \
@@ -1051,7 +1054,7 @@ fn write_replay(prop: &str, r: &RunReport, v: &Violation) -> String {
     if crate::cuts::profile(&r.profile).is_some() {
         kind = "cut_point";
         let variant = v.detail.split(' ').next().unwrap_or("").to_string();
-        if ["crash", "fail", "torn", "full"].contains(&variant.as_str()) {
+        if ["crash", "fail", "torn", "full", "crash2"].contains(&variant.as_str()) {
             extra = serde_json::json!({ "cut": v.step, "variant": variant });
         }
     }
